@@ -133,6 +133,9 @@ func (x *Exec) callFunc(callee *types.Func, recvExpr ast.Expr, e *ast.CallExpr, 
 	}
 	for i, a := range e.Args {
 		v := x.expr(a, st)
+		if lit, ok := a.(*ast.FuncLit); ok {
+			x.summarizeClosure(lit, v, st)
+		}
 		// implicit conversion to an interface-typed parameter
 		if i < sig.Params().Len() {
 			pty := x.w.goTy(sig.Params().At(i).Type(), x.model.BV)
@@ -551,6 +554,73 @@ func (x *Exec) inlineClosure(cl *closure, args []Val, e ast.Node, st *State) []V
 	}
 	fr := &frame{key: cl.name, pkg: cl.fr.pkg, info: cl.fr.info, fc: fc, sig: sig, body: cl.lit.Body}
 	return x.inlineBody(fr, cl.lit.Body, nil, nil, sig, args, e, st)
+}
+
+// summarizeClosure: a function literal passed directly as an argument is
+// only called during that call. If its body is a side-effect-free
+// expression of its parameters and captured values, the callee's view of it
+// (the uninterpreted application app(f, args)) is defined by a quantified
+// equation obtained by executing the body on bound variables.
+func (x *Exec) summarizeClosure(lit *ast.FuncLit, fv Val, st *State) {
+	sig, _ := x.info().Types[lit].Type.(*types.Signature)
+	if sig == nil || sig.Results().Len() != 1 {
+		return
+	}
+	id, ok := intVal(fv.T)
+	if !ok {
+		return
+	}
+	cl := x.closures[id]
+	if cl == nil {
+		return
+	}
+	defer func() {
+		if r := recover(); r != nil {
+			if _, isEng := r.(engineError); isEng {
+				x.notes = append(x.notes, "closure "+cl.name+" not summarised")
+				return
+			}
+			if _, isStr := r.(string); isStr {
+				return
+			}
+			panic(r)
+		}
+	}()
+	s2 := st.clone()
+	nob := len(x.obls)
+	var bvs []BoundVar
+	var args []Val
+	for i := 0; i < sig.Params().Len(); i++ {
+		pty := x.w.goTy(sig.Params().At(i).Type(), x.model.BV)
+		name := x.freshBound(sig.Params().At(i).Name())
+		srt := x.w.sortOf(pty, x.model)
+		bvs = append(bvs, BoundVar{name, srt})
+		args = append(args, Val{T: mk(name, srt), Ty: pty})
+	}
+	res := x.inlineClosure(cl, args, lit, s2)
+	if len(x.obls) != nob {
+		// the body has proof obligations of its own: do not summarise
+		x.obls = x.obls[:nob]
+		return
+	}
+	for k, h := range s2.heaps {
+		if old, ok := st.heaps[k]; ok && old != h {
+			return
+		}
+	}
+	if len(res) != 1 {
+		return
+	}
+	app := x.applyFuncValue(fv, sig, args)
+	// facts assumed inside the body (e.g. type invariants of pure call
+	// results) must hold for the equation to be usable: guard by them
+	if len(s2.pc) != len(st.pc) {
+		// the body introduced definitions (branches, call results) that depend
+		// on the parameters: no closed-form summary
+		x.notes = append(x.notes, "closure "+cl.name+" not summarised (its body is not a single expression)")
+		return
+	}
+	st.assume(Forall(bvs, Eq(app.T, res[0].T), app.T))
 }
 
 func (x *Exec) funcValue(o *types.Func, n ast.Node) Val {
